@@ -38,7 +38,8 @@ def main(argv):
                 cfg['fac'] = 'import' if cfg.get('fac') == 'create' else 'create'
                 cfg['sf_prefix'] = rng.choice([None, ['Zed']])
             steps.append([mi, cfg])
-        hists.append({'models': models, 'steps': steps, 'share_builder': len(hists) % 2 == 1})
+        # every third history keeps ONE Configuration object alive and edits its fields between builds
+        hists.append({'models': models, 'steps': steps, 'share_builder': len(hists) % 2 == 1, 'reuse_cfg': len(hists) % 3 == 1})
     # revisions of one model (same names, altered signatures) parsed afresh for every build and dropped afterwards, and one
     # Builder reused with alternating facilities origin: whatever is remembered under a name, an object identity or in the
     # builder instance across builds shows here
